@@ -171,7 +171,8 @@ pub fn gen_rw_run(check: &str, seed: u64, tier: Tier) -> Run {
         // particular order (classes with up to 13 parameters; the crate's slot maps leave their inline
         // storage at 10 entries), plus commutativity / associativity steps that move and merge those classes
         let mut wr = Rng::stream(seed, "wide-la");
-        if wr.chance(1, 14) {
+        // (not in proof-producing builds: a 13-parameter class there costs half a minute per rewriting step)
+        if wr.chance(1, 14) && !cfg!(feature = "explanations") {
             let n = 11 + wr.below(3);
             let mut names: Vec<S> = (40..40 + n as S).collect();
             wr.shuffle(&mut names);
